@@ -19,7 +19,7 @@ CHECKS = {
         category="model_checking",
         text=("BgzfPool.tla model-checks the worker-pool protocol (any completion order, in-order delivery, empty blocks, liveness) "
               "for all interleavings in the bound; the real binary is run on every Create.tla behaviour of a 4-population scenario "
-              "set in 9 container/layout variants x path/stdin x 6 thread counts x repeats x environments x slow pipes, each "
+              "set in 12 container/layout variants (incl. BGZF written with foreign header fields and stored blocks) x path/stdin x 6 thread counts x repeats x environments x slow pipes, each "
               "compared with the specification's expected bytes and with the plain-VCF run."),
         design_ref="DESIGN.md section 3 (C12) and section 5",
         note=("Thread schedules of the third-party pool are exhaustive in the model and SAMPLED on the real code; hash-seed "
